@@ -4,18 +4,23 @@
 //     sampler: the scripted points in order, then (0,0); goal-bias draws from the RNG tape u_k = ((seed + 7k + 3k^2) mod 64)/64;
 //     linear nearest-neighbour structure; IterationTerminationCondition(iters).
 //   RRTN <maxDistance> <goalBias> <threshold> W .. S .. G .. C <ncalls> { <iters> <tapeSeed> P <np> {x y}* }*   several solve() calls on one planner
+//   EST <maxDistance> <goalBias> <threshold> <iters> W .. S .. G <gx> <gy> T <nt> {u}* P <np> {x y | - -}*
+//     geometric::EST: uniform01 draws from the tape T, sampleNear results from P (- - = sampleNear fails), linear NN;
+//     output "est <n>; x y p; ... | report | w0 w1 ..." (the PDF weight of every motion)
 //   output: one line "rrt <n>; x y p; ... | <reported 0/1> <approx> <diff> | x y; ..." with doubles as bit patterns
 #define protected public
 #include <ompl/geometric/planners/rrt/RRT.h>
 #include <ompl/geometric/planners/rrt/RRTConnect.h>
 #include <ompl/geometric/planners/rrt/LazyRRT.h>
 #include <ompl/geometric/planners/rlrt/RLRT.h>
+#include <ompl/geometric/planners/est/EST.h>
 #undef protected
 #include <ompl/base/goals/GoalStates.h>
 #include <ompl/base/spaces/RealVectorStateSpace.h>
 #include <ompl/base/SpaceInformation.h>
 #include <ompl/base/ProblemDefinition.h>
 #include <ompl/base/MotionValidator.h>
+#include <ompl/base/ValidStateSampler.h>
 #include <ompl/base/goals/GoalState.h>
 #include <ompl/base/terminationconditions/IterationTerminationCondition.h>
 #include <ompl/datastructures/NearestNeighborsLinear.h>
@@ -62,6 +67,19 @@ public:
     }
     void sampleUniformNear(ob::State *s, const ob::State *, double) override { sampleUniform(s); }
     void sampleGaussian(ob::State *s, const ob::State *, double) override { sampleUniform(s); }
+};
+class ScriptVSS : public ob::ValidStateSampler
+{
+public:
+    ScriptVSS(const ob::SpaceInformation *si, std::shared_ptr<std::deque<std::pair<bool, std::pair<double, double>>>> q) : ob::ValidStateSampler(si), q_(std::move(q)) {}
+    std::shared_ptr<std::deque<std::pair<bool, std::pair<double, double>>>> q_;
+    bool sample(ob::State *s) override { return sampleNear(s, nullptr, 0.0); }
+    bool sampleNear(ob::State *s, const ob::State *, double) override
+    {
+        if (q_->empty()) return false;
+        auto e = q_->front(); q_->pop_front(); if (!e.first) return false;
+        s->as<ob::RealVectorStateSpace::StateType>()->values[0] = e.second.first; s->as<ob::RealVectorStateSpace::StateType>()->values[1] = e.second.second; return true;
+    }
 };
 int main()
 {
@@ -121,6 +139,48 @@ int main()
             std::printf("%s", cmd == "RRTCN" ? "rrtcn" : "rrtc"); dump(planner->tStart_); std::printf(" /"); dump(planner->tGoal_);
             for (auto &r : creps) std::printf("%s", r.c_str());
             std::printf("\n"); std::fflush(stdout);
+            continue;
+        }
+        if (cmd == "EST")
+        {
+            in >> maxd >> bias >> thr >> iters;
+            std::vector<Wall> ewalls; std::vector<std::pair<double, double>> est_starts; double egx = 0, egy = 0; int en; std::vector<double> etape;
+            auto eq = std::make_shared<std::deque<std::pair<bool, std::pair<double, double>>>>();
+            in >> tag >> en; for (int i = 0; i < en; ++i) { Wall k; in >> k.w >> k.lo >> k.hi; ewalls.push_back(k); }
+            in >> tag >> en; for (int i = 0; i < en; ++i) { double x, y; in >> x >> y; est_starts.emplace_back(x, y); }
+            in >> tag >> egx >> egy;
+            in >> tag >> en; for (int i = 0; i < en; ++i) { double u; in >> u; etape.push_back(u); }
+            in >> tag >> en; for (int i = 0; i < en; ++i) { std::string a, b; in >> a >> b; if (a == "-") eq->push_back({false, {0, 0}}); else eq->push_back({true, {std::strtod(a.c_str(), nullptr), std::strtod(b.c_str(), nullptr)}}); }
+            auto space = std::make_shared<ob::RealVectorStateSpace>(2); space->setBounds(-100, 100);
+            auto si = std::make_shared<ob::SpaceInformation>(space);
+            si->setStateValidityChecker([](const ob::State *) { return true; });
+            si->setMotionValidator(std::make_shared<WallMV>(si, ewalls));
+            si->setValidStateSamplerAllocator([eq](const ob::SpaceInformation *s) { return std::make_shared<ScriptVSS>(s, eq); });
+            si->setup();
+            auto pdef = std::make_shared<ob::ProblemDefinition>(si);
+            for (auto &s : est_starts) { ob::ScopedState<> a(space); a[0] = s.first; a[1] = s.second; pdef->addStartState(a); }
+            ob::ScopedState<> g(space); g[0] = egx; g[1] = egy; pdef->setGoalState(g, thr);
+            auto ep = std::make_shared<og::EST>(si);
+            ep->nn_ = std::make_shared<ompl::NearestNeighborsLinear<og::EST::Motion *>>();
+            ep->setRange(maxd); ep->setGoalBias(bias); ep->setProblemDefinition(pdef); ep->setup();
+            unsigned cnt = 0; const unsigned lim = iters;
+            ompl::RNG::verifSetTape(etape.data(), etape.size());
+            ep->solve(ob::PlannerTerminationCondition([&cnt, lim] { return cnt++ >= lim; }));
+            std::size_t used = ompl::RNG::verifTapeUsed();
+            ompl::RNG::verifSetTape(nullptr, 0);
+            auto &ms = ep->motions_;
+            std::map<const og::EST::Motion *, long> idx; for (std::size_t i = 0; i < ms.size(); ++i) idx[ms[i]] = (long)i;
+            std::printf("est %zu;", ms.size());
+            for (auto *m : ms) { const double *v = m->state->as<ob::RealVectorStateSpace::StateType>()->values; std::printf(" %016llx %016llx %ld;", bits(v[0]), bits(v[1]), m->parent ? idx[m->parent] : -1L); }
+            if (pdef->hasSolution())
+            {
+                auto path = std::dynamic_pointer_cast<og::PathGeometric>(pdef->getSolutionPath());
+                std::printf(" | 1 %d %016llx |", pdef->hasApproximateSolution() ? 1 : 0, bits(pdef->getSolutionDifference()));
+                for (std::size_t i = 0; i < path->getStateCount(); ++i) { const double *v = path->getState(i)->as<ob::RealVectorStateSpace::StateType>()->values; std::printf(" %016llx %016llx;", bits(v[0]), bits(v[1])); }
+            }
+            else std::printf(" | 0 |");
+            std::printf(" |"); for (auto *m : ms) std::printf(" %016llx", bits(ep->pdf_.getWeight(m->element)));
+            std::printf(" | used %zu of %zu, samples left %zu\n", used, etape.size(), eq->size()); std::fflush(stdout);
             continue;
         }
         const bool multi = cmd == "RRTN"; const bool lazy = cmd == "LRRT"; const bool rl = cmd == "RLRT";
